@@ -227,6 +227,10 @@ CHECKS = {
             'DESIGN.md section 4, C14'),
 }
 
+FUZZ = dict((p, 'the thorough tier') for p in ('C03', 'C04', 'C05', 'C06', 'C07', 'C08', 'C09', 'C12', 'C13', 'C18',
+                                              'C19', 'C20'))
+FUZZ.update(C01='both tiers', C14='both tiers', C17='both tiers')
+
 PENDING_REASON = 'check not built yet (work in progress; see DESIGN.md section 8 for the order of work)'
 
 ALL = ['C%02d' % i for i in range(1, 21)]
@@ -238,6 +242,9 @@ def main():
         if pid not in CHECKS:
             continue
         level, technique, text, note, ref = CHECKS[pid]
+        if pid in FUZZ:
+            technique += ('; coverage-guided fuzzing (atheris/libFuzzer driving the same Hypothesis strategy and '
+                          'oracle through fuzz_one_input) in %s' % FUZZ[pid])
         checks.append(dict(
             property_id=pid,
             quick_cmd='./check %s --tier quick' % pid,
